@@ -320,6 +320,31 @@ def check(recipe, ctx):
                            % (where, rep + 1, exp[1], got[1]))
         if caller is not None and (caller != snap or list(caller) != list(snap)):
             raise Mismatch('caller-scope-modified', '%s: caller mapping is now %r' % (where, caller))
+    # the method form: Spec(spec, scope=base).glom(target, scope=per_call) - per-call values override the Spec's own,
+    # and neither mapping nor the Spec object may remember anything from one call to the next
+    base = {'k': 'spec-k'}
+    sp = Spec(spec, scope=base)
+    for rep, per_call in enumerate(({'j': 'call1-j'}, {'k': 'call2-k'}, {})):
+        env = dict(base)
+        env.update(per_call)
+        state = {'glob': {}}
+        try:
+            exp = ('ok', canon(ev(tree, [1, 2], env, state)[0]))
+        except Fail:
+            exp = ('fail',)
+        given = dict(per_call)
+        try:
+            got = ('ok', canon(sp.glom([1, 2], scope=given)))
+        except GlomError as e:
+            got = ('fail',)
+        except Exception as e:
+            raise Mismatch('unexpected-exception', '%s via Spec.glom: %s: %r' % (where, type(e).__name__, e))
+        if exp != got:
+            raise Mismatch('spec-glom-scope', '%s: Spec(spec, scope=%r).glom(t, scope=%r) (call #%d on the same Spec): expected %r, got %r'
+                           % (where, {'k': 'spec-k'}, per_call, rep + 1, exp, got))
+        if given != per_call or base != {'k': 'spec-k'} or sp.scope != {'k': 'spec-k'}:
+            raise Mismatch('caller-scope-modified', '%s: after Spec.glom the mappings are base=%r per-call=%r spec.scope=%r'
+                           % (where, base, given, sp.scope))
     ctx.outcome([repr(spec)[:140], exp])
 
 
